@@ -186,48 +186,51 @@ type Failure struct {
 }
 
 type Exec struct {
-	eng         *Engine
-	sess        *Session
-	top         *ssa.Function
-	fc          *FuncContract
-	obligs      map[string]*Oblig
-	order       []string
-	nfresh      int
-	nframes     int
-	declared    map[string]bool
-	usedSpecs   map[string]bool
-	entryAllocW string
-	entryState  *State
-	entryEnv    *Env
-	paramVals   map[string]Val
-	inputTerms  []string // terms whose model values describe the input
-	inputNames  []string
-	notes       map[string]bool // abstractions applied (for evidence)
-	paths       int
-	pathCap     int
-	capped      bool
-	safetyOrd   map[string]int // instruction -> ordinal naming
-	safetyNames map[ssa.Instruction]string
-	raceTimeout int
-	inlineDepth int
-	covers      int // number of paths reaching a normal return with sat-possible pc
-	returnPaths int
-	panicPaths  int
-	curFnName   string
-	epochCtr    int
-	instDone    map[string]int
-	freeCells   map[string]*Cell // captured variables of a closure verified stand-alone
-	pruneMs     int64
-	pruneN      int
-	pruned      int
-	combMs      int64
-	combN       int
-	combOK      int
-	shard       int               // this worker's shard id
-	nshards     int               // number of workers (0/1 = no sharding)
-	owners      map[string]uint64 // from the dry pre-pass: which shards own a leaf below each choice prefix
-	dryLeaves   []string          // dry pre-pass: choice strings of all leaves
-	leafCount   map[string]int
+	eng           *Engine
+	sess          *Session
+	top           *ssa.Function
+	fc            *FuncContract
+	obligs        map[string]*Oblig
+	order         []string
+	nfresh        int
+	nframes       int
+	declared      map[string]bool
+	usedSpecs     map[string]bool
+	entryAllocW   string
+	entryState    *State
+	entryEnv      *Env
+	paramVals     map[string]Val
+	inputTerms    []string // terms whose model values describe the input
+	inputNames    []string
+	notes         map[string]bool // abstractions applied (for evidence)
+	paths         int
+	pathCap       int
+	capped        bool
+	safetyOrd     map[string]int // instruction -> ordinal naming
+	safetyNames   map[ssa.Instruction]string
+	raceTimeout   int
+	inlineDepth   int
+	covers        int // number of paths reaching a normal return with sat-possible pc
+	returnPaths   int
+	panicPaths    int
+	curFnName     string
+	epochCtr      int
+	instDone      map[string]int
+	freeCells     map[string]*Cell // captured variables of a closure verified stand-alone
+	freeCellTypes map[*Cell]types.Type
+	topFn         *ssa.Function // the function under verification
+	selfApply     bool          // applying the contract of the closure under verification to a recursive call of itself
+	pruneMs       int64
+	pruneN        int
+	pruned        int
+	combMs        int64
+	combN         int
+	combOK        int
+	shard         int               // this worker's shard id
+	nshards       int               // number of workers (0/1 = no sharding)
+	owners        map[string]uint64 // from the dry pre-pass: which shards own a leaf below each choice prefix
+	dryLeaves     []string          // dry pre-pass: choice strings of all leaves
+	leafCount     map[string]int
 }
 
 func (x *Exec) note(s string) { x.notes[s] = true }
@@ -787,6 +790,49 @@ func (x *Exec) loopArrive(st *State, fr *Frame, lp *loop, head *ssa.BasicBlock, 
 	phase := "preserve"
 	if entering {
 		phase = "establish"
+	}
+	if lc != nil && lc.Over != nil && entering {
+		// the iteration domain: what the range statement of THIS loop ranges over
+		o := x.oblig(fmt.Sprintf("%s/loop%d.over", fname, lp.ordinal), "loop-domain", x.propsFor(fr, lc.Over), lp.pos, "the loop ranges over "+lc.Over.Text)
+		var dom ssa.Value
+		for _, in := range lp.head.Instrs {
+			switch v := in.(type) {
+			case *ssa.Next:
+				if r, ok := v.Iter.(*ssa.Range); ok {
+					dom = r.X
+				}
+			case *ssa.BinOp:
+				if v.Op == token.LSS && dom == nil {
+					if c, ok := v.Y.(*ssa.Call); ok {
+						if b, ok := c.Call.Value.(*ssa.Builtin); ok && b.Name() == "len" && len(c.Call.Args) == 1 {
+							dom = c.Call.Args[0]
+						}
+					}
+				}
+			}
+		}
+		if dom == nil {
+			x.unbound(o, fmt.Errorf("loop %d is not a range loop", lp.ordinal))
+		} else {
+			func() {
+				defer func() {
+					if r := recover(); r != nil {
+						if ee, ok := r.(evalError); ok {
+							x.unbound(o, fmt.Errorf("%s", ee.msg))
+							return
+						}
+						panic(r)
+					}
+				}()
+				want := x.loopEnv(st, fr, lp).eval(lc.Over.Expr)
+				eq, ok := valEqual(x.get(fr, dom), want)
+				if !ok {
+					x.unbound(o, fmt.Errorf("cannot compare the range operand with %s", lc.Over.Text))
+					return
+				}
+				x.check(st, o, eq)
+			}()
+		}
 	}
 	if lc != nil && lc.Ordered != nil && entering {
 		o := x.oblig(fmt.Sprintf("%s/loop%d.ordered", fname, lp.ordinal), "order", x.propsFor(fr, lc.Ordered), lp.pos, lc.Ordered.Text)
@@ -1672,6 +1718,14 @@ func (x *Exec) doBinOp(st *State, fr *Frame, in *ssa.BinOp) {
 		fr.regs[in] = Bool{c}
 		return
 	}
+	if sa, ok := a.(Str); ok {
+		if sb, ok := b.(Str); ok {
+			if c, ok := strOrder(in.Op, sa, sb); ok {
+				fr.regs[in] = Bool{c}
+				return
+			}
+		}
+	}
 	switch av := a.(type) {
 	case Int:
 		bv, ok := b.(Int)
@@ -2292,3 +2346,22 @@ func constInt(v constant.Value) (int64, bool) {
 
 var _ = os.Stderr
 var _ ast.Node
+
+// strOrder: the lexical order of strings as an uninterpreted strict order strlt on their representation
+// (deterministic; not axiomatised): enough to state that a comparison function does or does not use it.
+func strOrder(op token.Token, a, b Str) (string, bool) {
+	lt := func(p, q Str) string {
+		return "(strlt " + p.Base + " " + p.Off + " " + p.Len + " " + q.Base + " " + q.Off + " " + q.Len + ")"
+	}
+	switch op {
+	case token.LSS:
+		return lt(a, b), true
+	case token.GTR:
+		return lt(b, a), true
+	case token.LEQ:
+		return "(not " + lt(b, a) + ")", true
+	case token.GEQ:
+		return "(not " + lt(a, b) + ")", true
+	}
+	return "", false
+}
